@@ -357,7 +357,9 @@ class Interp:
                     base = self.project(pv, proj[n:])
                     break
             if base is None:
-                if root[0] == 'T':
+                if root[0] == 'K':
+                    base = self.project(root[1], proj)
+                elif root[0] == 'T':
                     base = ('load', path)
                 else:
                     base = ('undef', path_str(path))
@@ -489,6 +491,8 @@ class Interp:
                 v = self.read(st, path)
                 if v[0] == 'ref':
                     path = v[1]
+                elif v[0] == 'constref':
+                    path = (('K', v[1]), ())          # pointee of a reference to a constant
                 else:
                     path = (('T', v), ())
             elif k == 'field':
@@ -515,6 +519,11 @@ class Interp:
             return ('f64', c['f64'])
         if 'str' in c:
             return ('str', c['str'])
+        if 'ref_enum' in c:
+            e = c['ref_enum']
+            return ('constref', agg(e['adt'], e['variant'], e['vi'], ()))
+        if 'ref_int' in c:
+            return ('constref', INT(c['ref_int']))
         if 'fn' in c:
             r = c['fn'].get('resolved')
             return ('fnitem', c['fn']['path'], r['key'] if r else None, c['fn']['def'],
@@ -707,6 +716,8 @@ class Interp:
         """A pointer term -> the thing pointed to (as value term when available)."""
         if t[0] == 'ref':
             return self.read(st, t[1])
+        if t[0] == 'constref':
+            return t[1]
         return ('deref', t)
 
     # -- driving ---------------------------------------------------------------------------
